@@ -290,16 +290,24 @@ def ext_kdtree(e, args, kw, node, st):
 def ext_query_pairs(e, args, kw, node, st):
     """KDTree.query_pairs(r): exactly the set {(i, j) : 0 <= i < j < n, |p_i - p_j| <= r}, written sqdist(p_i, p_j) <= r*r with
     sqdist the squared Euclidean distance.  sqdist stays uninterpreted in the proof (it holds for every function; contract
-    and specification use the same symbol), so no non-linear reasoning about distances is needed."""
+    and specification use the same symbol), so no non-linear reasoning about distances is needed.
+    Membership is a named predicate with its defining axiom (trigger: the predicate), which keeps instantiation finite."""
     from pyvc.values import VSet, sel
     tree, r = args[0], to_z3(args[1], "real")
-    pts = e.heap_read(st, tree, "points")
-    n = to_z3(pts.length)
+    memo = e.__dict__.setdefault("_kd_memo", {})
+    key = (to_z3(tree.ident).get_id(), r.get_id())
+    if key not in memo:
+        pts = e.heap_read(st, tree, "points")
+        n = to_z3(pts.length)
+        i, j = z3.Int(uid("i")), z3.Int(uid("j"))
+        pi, pj = sel(pts.elems, i).items, sel(pts.elems, j).items
+        d2 = e.ufuns["sqdist"](*[to_z3(x, "real") for x in list(pi) + list(pj)])
+        f = z3.Function(uid("kd_pair"), z3.IntSort(), z3.IntSort(), z3.BoolSort())
+        st.assume(z3.ForAll([i, j], f(i, j) == z3.And(i >= 0, i < j, j < n, r >= 0, d2 <= r * r), patterns=[f(i, j)]))
+        memo[key] = f
+    f = memo[key]
     i, j = z3.Int(uid("i")), z3.Int(uid("j"))
-    pi, pj = sel(pts.elems, i).items, sel(pts.elems, j).items
-    d2 = e.ufuns["sqdist"](*[to_z3(x, "real") for x in list(pi) + list(pj)])
-    mem = z3.Lambda([i], z3.Lambda([j], z3.And(i >= 0, i < j, j < n, r >= 0, d2 <= r * r)))
-    return VSet(("tuple", (("int",), ("int",))), mem)
+    return VSet(("tuple", (("int",), ("int",))), z3.Lambda([i], z3.Lambda([j], f(i, j))))
 
 
 ext_query_pairs.pure = True
